@@ -195,6 +195,8 @@ def truth(it, x):
         return truth_len(x.keys.len)
     if isinstance(x, (Closure, BoundMethod, ModelFn, ClassObj, TypeObj)):
         return True
+    if type(x).__name__ == "DType":
+        return True                 # a NumPy dtype object is truthy
     if isinstance(x, MSet):
         e = z3.Const("e!truth", V)
         return z3.Exists([e], x.set.mem(e))
@@ -719,8 +721,25 @@ def clamp_slice(it, sl, n):
     return conc(lo), conc(hi)
 
 
+def opaque(it):
+    """contracts over foreign objects (datetime, re.Match, ...): attributes, calls and subscripts of an opaque value are
+    uninterpreted functions of the value (and arguments) instead of the item-dict interpretation"""
+    return bool(getattr(it, "config", {}).get("opaque_objects"))
+
+
+def opaque_call(it, f, args, kwargs):
+    vs = [to_v(it, a) for a in args]
+    for k in sorted(kwargs):
+        vs.append(mk_tuple(it.ctx, [to_v(it, k), to_v(it, kwargs[k])]))
+    fn = z3.Function(f"call{len(vs)}", V, *([V] * len(vs)), V)
+    it.ctx.used_models.add("opaque objects: attribute / call / subscript are uninterpreted functions of the object and the arguments")
+    return fn(f, *vs)
+
+
 def getitem(it, obj, idx):
     ctx = it.ctx
+    if is_v(obj) and opaque(it) and not isinstance(idx, SliceVal):
+        return z3.Function("item_of", V, V, V)(obj, to_v(it, idx))
     if isinstance(obj, Instance):
         ok, m = it.class_attr(obj.cls, "__getitem__")
         if ok:
@@ -889,6 +908,8 @@ def value_getattr(it, obj, name):
     table = None
     if is_v(obj) and name == "item" and getattr(it, "np_scalars", False):
         raise PyRaise("AttributeError", "'str' object has no attribute 'item'")      # a plain Python object, not a NumPy scalar
+    if is_v(obj) and opaque(it) and not name.startswith("__"):
+        return z3.Function("attr_" + name, V, V)(obj)
     if is_v(obj) and name == "__class__":
         return class_of(obj)
     if is_v(obj) and name == "__module__":
@@ -1974,7 +1995,7 @@ def make_module(it, modname):
     if modname.startswith("dataiter."):
         return it.repo_module(modname.replace(".", "/") + ".py")
     if modname in ("json", "csv", "pickle", "random", "sys", "codecs", "math", "statistics", "collections",
-                   "datetime", "numpy", "numpy.dtypes", "warnings", "numba", "numba.extending"):
+                   "datetime", "numpy", "numpy.dtypes", "warnings", "numba", "numba.extending", "re"):
         from . import models_lib
         return models_lib.make_module(it, modname)
     raise Unsupported(f"module {modname} not modelled")
